@@ -283,3 +283,5 @@ def run(ctx):
     r16_3(ctx)
     r16_4(ctx)
     r16_5(ctx)
+    from . import c10
+    c10.r10_4_units(ctx, modules=("mbox", "fetch", "search"))
